@@ -37,6 +37,10 @@ fn main() {
                 ctx.prefix = true;
                 k += 1;
             }
+            "--skip" => {
+                ctx.skip = args[k + 1].split(',').filter(|x| !x.is_empty()).map(|x| x.parse().unwrap()).collect();
+                k += 2;
+            }
             "--from" => {
                 ctx.from = args[k + 1].parse().unwrap();
                 k += 2;
@@ -58,7 +62,7 @@ fn main() {
     }
     install_panic_hook();
     limit_address_space();
-    if ctx.breadcrumb.is_some() || ctx.only.is_some() {
+    {
         // families that leave breadcrumbs (and every replay) bound every case by wall clock as a backstop against a spin
         mcw::core::start_watchdog(std::env::var("MCW_CASE_WALL_S").ok().and_then(|v| v.parse().ok()).unwrap_or(60));
     }
